@@ -404,6 +404,9 @@ def run(check, an: Analysis):
     # they keep the loop busy beyond `till` (closing sequence, rule shared with C04)
     from . import c04
     c04.check_close_on_every_exit(check, an, 'T', _scope.scope_receivers(an))
+    # the kernel rules every suspending operation rests on (shared; see _scope)
+    from . import _scope as _kernel
+    _kernel.check_kernel_core(check, an)
     check.stats.update(an.stats())
 
 
